@@ -687,9 +687,11 @@ func orOK(why string) string {
 func run(c *vf.Ctx) {
 	nseq := c.N(200, 3000)
 	nops := c.N(40, 80)
-	workers := runtime.NumCPU()
-	if workers > 8 {
-		workers = 8 // every worker loads its own copy of the stdlibs into its own store
+	// Every worker loads its own copy of the stdlibs grc20 needs into its own
+	// store (about 10x the cost of running one batch), so few workers in quick.
+	workers := c.N(3, 8)
+	if n := runtime.NumCPU(); workers > n {
+		workers = n
 	}
 	batch := c.N(25, 25)
 	nb := (nseq + batch - 1) / batch
@@ -783,7 +785,7 @@ func run(c *vf.Ctx) {
 				for _, o := range s.ops[:10] {
 					ops = append(ops, o.text())
 				}
-				c.Sample(map[string]any{"first_ops": ops, "driver_lines": per[i][:11]})
+				c.Sample(map[string]any{"first_ops": ops, "driver_lines": per[i][:min(11, len(per[i]))]})
 			}
 		}
 		tallies[bi] = cnt
